@@ -544,7 +544,11 @@ func c16Long(c *Ctx, i int, r *gen.R) {
 		c.Rec.Count("plain_binary_unavailable(check started without run.sh)", 1)
 		return
 	}
-	out, err := exec.Command(exe, "-aux", "c16long", strconv.Itoa(G), strconv.Itoa(i)).CombinedOutput()
+	var out []byte
+	var err error
+	waitingForChild(func() {
+		out, err = exec.Command(exe, "-aux", "c16long", strconv.Itoa(G), strconv.Itoa(i)).CombinedOutput()
+	})
 	txt := strings.TrimSpace(string(out))
 	switch {
 	case err != nil:
@@ -657,6 +661,7 @@ func init() {
 		Phases: []Phase{
 			{Name: "barrier-released batches of goroutines building and rendering their own tables", N: Fixed(24, 1200), Run: func(c *Ctx, i int, r *gen.R) { withProcs(c, func() { c16Run(c, i, r) }) }},
 			{Name: "24-48 goroutines each rendering a table of 512-1500 rows of their own ten times (nine as text through one wrapper, once as CSV) at once, in this process and in a child built without the race detector", N: Fixed(2, 60), Run: func(c *Ctx, i int, r *gen.R) { c16Long(c, i, r) }}, // always on all processors: the point is overlap
+			{Name: "pipelines: one render streamed through a pipe to a goroutine that renders tables of its own for every line it reads (5 x 5 formats, io.Pipe and os.Pipe), in a child built without the race detector", Exhaustive: true, N: Fixed(30, 50), Run: c16Pipeline},
 			{Name: "65-257 renders of independent tables all in flight at the same instant (each blocked in its first Write until all are there)", N: Fixed(12, 240), Run: func(c *Ctx, i int, r *gen.R) { withProcs(c, func() { c16InFlight(c, i, r) }) }},
 		},
 	})
